@@ -1500,8 +1500,10 @@ def main():
         "iteration) from a controlled thread; time.sleep is stubbed",
     ]
     chk.trusted = ["translator: translators/synced.py (Python ast -> coq/gen/SyncedGen.v, regenerated on this run)",
+                   "translator: translators/rwlock.py (casbin/util/rwlock.py -> coq/gen/RWLockGen.v; the lock the wrappers take is the "
+                   "verified one: Part C of Props/C17.v re-states C16's exclusion / no-lost-wake-up / deadlock-freedom of it)",
                    "harness/sched.py cooperative doubles of RLock/Condition (correspondence only)"]
-    chk.build(translators=["synced"])
+    chk.build(translators=["synced", "rwlock"])
     if chk.oracle is None:
         chk.notes.append("oracle unavailable: nothing could be run")
         chk.extra["notes"] = chk.notes
